@@ -1103,12 +1103,18 @@ def setters(ctx, prog, rule):
         R = Resolver(f)
         want = m.group(2)
         writes = []
+        wblocks = []
         for ln, ds in f.defs().items():
             for kind, payload, bi, si, place in ds:
                 if place["local"] == 1 and place["proj"] and bi in f.cfg():
                     t = R.rvalue(payload) if kind == "stmt" else R._call(payload, bi, 0, frozenset())
                     writes.append((".".join(fields_of(place)), t))
+                    wblocks.append(bi)
         ok = len(writes) == 1 and writes[0][0].split(".")[-1] == want and ("param", 2) in leaves(writes[0][1])
+        # unconditionally: a setter that keeps the old value for some arguments (None, empty) does not store what it was given
+        if ok and find_path(f.cfg(), [0], set(f.return_blocks()), set(wblocks)) is not None:
+            ok = False
+            writes.append(("<conditional>", ("const", "&str", "some path through the setter does not store the argument")))
         if ok:
             t = strip(writes[0][1])
             # stored unchanged: the parameter itself, Some(param) or Some(param.to_owned())
@@ -1244,7 +1250,7 @@ def datetime_flag(ctx, prog, rule):
 
 _POSITIONAL_NODE = ("next_sibling", "prev_sibling", "next_sibling_element", "prev_sibling_element", "first_child", "last_child",
                     "first_element_child", "last_element_child", "next_siblings", "prev_siblings")
-_POSITIONAL_ITER = ("nth", "last", "skip", "step_by", "nth_back")
+_POSITIONAL_ITER = ("nth", "last", "skip", "step_by", "nth_back", "take", "take_while", "map_while", "skip_while", "scan")
 
 
 def _positional_hits(prog, fns):
@@ -1428,3 +1434,19 @@ def local_name_controls(ctx, rule):
     ctx.configs["controls"] = info
     for name, expect in (("xmlnav::same_local", True), ("xmlnav::same_name", False)):
         ctx.control(rule, name, bool(_local_name_compares(prog, [prog.fn(name)])), expect)
+
+
+def writer_validators_not_in_reader(ctx, prog, rule):
+    """the reader accepts every well-formed extension name: the writer's own naming rules (Extension::validate_name /
+    validate_prototype, a whitelist that is narrower than XML names) are not reachable from any reading entry point"""
+    import panic_rules
+    rs = panic_rules.roots(prog, "reader")
+    reach_set = prog.reachable_from(rs)
+    hit = sorted(p for p in reach_set if p in ("extension::Extension::validate_name", "extension::Extension::validate_prototype"))
+    callers = []
+    for h in hit:
+        for p in sorted(reach_set):
+            f = prog.fns[p]
+            if any(callee_of(t) == h for bi, t in f.calls()):
+                callers.append("%s -> %s" % (short(p), short(h)))
+    ctx.ob(rule, "writer-validators-not-in-reader", not hit, "reader functions reaching the writer's name whitelist: %s (%d reader functions searched)" % (callers or "none", len(reach_set)), nontrivial=False)
